@@ -54,7 +54,7 @@ SEGNOTE = "Bounded: 6-7 hand seeds with rectangular masks in 4 frames of 4x6 (2D
 E2M = "explicit-state model checking of the implementation against a reference model (exhaustive enumeration of all call sequences up to a length bound, lock-step list+cursor / set model, no state merging)"
 
 add("C02", "E2-histories",
-    "All sequences over {edit_1..edit_6, undo, redo} up to length 5 (quick) / 6-7 (thorough) for three menus (forced add-edge / add-node nesting other user actions, swap, delete, set-attr; paint strokes that nest delete-node / add-node) plus all sequences over the full state-dependent alphabet + undo + redo up to length 2-3 are executed from scratch on fresh real objects in lock step with a 10-line timeline model (list of observed states + cursor, undone steps appended in reverse). Checked after every call: return value, state == timeline[cursor], stack growth = 1 per top-level action, False step changes nothing; at every leaf undo-until-False must visit timeline[cursor::-1]. C03-C06 invariants are re-checked after every undo/redo.",
+    "All sequences over {edit_1..edit_6, undo, redo} up to length 5 (quick) / 6-7 (thorough) for three menus (forced add-edge / add-node nesting other user actions, swap, delete, set-attr; paint strokes that nest delete-node / add-node) plus all sequences over the full state-dependent alphabet + undo + redo up to length 2-3 are executed from scratch on fresh real objects in lock step with a 10-line timeline model (list of observed states + cursor, undone steps appended in reverse). Checked after every call: return value, state == timeline[cursor] (so one undo after any accepted action - however many primitives or nested user actions it contains - lands on the previous state), a False step changes nothing; at every leaf undo-until-False must visit timeline[cursor::-1]. C03-C06 invariants are re-checked after every undo/redo.",
     "Bounded by menu and length; no state merging (futures depend on the hidden stacks). The model/implementation binding is total within the bound: every enumerated sequence is an implementation trace.",
     E2M, "DESIGN.md 4 C02")
 add("C07", "E1-explore",
